@@ -17,7 +17,7 @@ from harness.props.mnemonic_common import IMPL as MN_IMPL, oracle_for
 from harness.props.c09 import pre_build as _pre9
 from harness.props.c01 import pre_build as _pre1
 
-LEAN_MODULES = ["BipVerif.Props.C14", "BipVerif.Props.C14Addr", "BipVerif.Props.C14Wallets"]
+LEAN_MODULES = ["BipVerif.Props.C14", "BipVerif.Props.C14Addr", "BipVerif.Props.C14Wallets", "BipVerif.Props.C14More"]
 IMPL = {}
 from harness.props.c19 import IMPL as C19_IMPL, ORACLES  # noqa
 for d in (ADDR_IMPL, CODEC_IMPL, C10_IMPL, B32_IMPL, MN_IMPL, C19_IMPL):
